@@ -129,7 +129,12 @@ func (c *wsConn) nextMessage() {
 		close(c.incoming)
 		return
 	}
-	c.incoming <- r
+	select {
+	case c.incoming <- r:
+	case <-c.exiting:
+		// the connection handler has exited (context cancelled, closed) and nobody will
+		// receive this message; don't leave this goroutine blocked forever
+	}
 }
 
 // nextWriter waits for writeLk and invokes the cb callback with WS message
